@@ -124,7 +124,12 @@ pub fn generate(seed: u64, tier: &str, out: &mut dyn std::io::Write) {
     let nnat = if tier == "thorough" { 80 } else { 30 };
     for i in 0..nnat {
         let mut r = Rng::for_case(seed, 1011, i);
-        let scen = *r.pick(&["badname", "baddso", "traced", "none", "killed", "killed", "badlink", "traced-reused"]);
+        let mut scen = *r.pick(&["badname", "baddso", "traced", "none", "killed", "killed", "badlink", "traced-reused"]);
+        // (every fifth case: *every* thread of the target is traced by somebody else — no thread is left after the attach
+        // step, which is a failure of that step as a whole, on top of the failure to attach to each thread)
+        if i % 5 == 4 {
+            scen = "alltraced";
+        }
         let nblock = r.range(1, 4) as usize;
         let mut args = vec!["-t".to_string(), nblock.to_string()];
         let victim = r.range(0, nblock as u64) as usize;
@@ -163,6 +168,14 @@ pub fn generate(seed: u64, tier: &str, out: &mut dyn std::io::Write) {
         if scen == "traced" {
             tracer = crate::c01::spawn_tracer(t.threads[victim].tid);
         }
+        let mut more_tracers = Vec::new();
+        if scen == "alltraced" {
+            for th in &t.threads {
+                if let Some(c) = crate::c01::spawn_tracer(th.tid) {
+                    more_tracers.push(c);
+                }
+            }
+        }
         // the blamed thread itself cannot be attached (somebody else traces it by then), on a writer that has served a
         // request before: everything but what depends on that thread has to be as in a fresh writer's dump of the same
         // situation (`ref=`)
@@ -190,6 +203,12 @@ pub fn generate(seed: u64, tier: &str, out: &mut dyn std::io::Write) {
             let _ = c.kill();
             let _ = c.wait();
         }
+        let ntraced = more_tracers.len();
+        for mut c in more_tracers {
+            let _ = c.kill();
+            let _ = c.wait();
+        }
+        let scen = if scen == "alltraced" && ntraced != t.threads.len() { "none" } else { scen };
         let (json, tree) = match &o.image {
             Some(img) => soft_error_field(img),
             None => ("-".into(), "-".into()),
